@@ -142,3 +142,60 @@ Theorem C16_callback_loop_source_is_model : forall so m t0 t1 f cb,
                     (map KV.Proofs.LogicSimDriversProofs.emb2 m) in
   fst r = map KV.Proofs.LogicSimDriversProofs.emb2 (c_prop_cb false sem2 cb so m) /\ map fst (snd r) = cb_lines so.
 Proof. exact KV.Proofs.LogicSimDriversProofs.cprop2_cb_source_is_model. Qed.
+
+(** ---- the m == 8 (and m == 4) CALLBACK copy at memory level (Proofs/LogicSimLoopN.v, Proofs/LogicSimSepBuildX.v).
+    [LSN.cb_rel8 f cb]: what the callback leaves in the three-plane view it is shown is the image of what the model's callback returns
+    (forall k v, f k (code_bits v) = code_bits (cb k v)).  [LSN.ops_sepx_b so] (decidable; evaluated per generated circuit): c_locs[tmp_idx] <>
+    c_locs[tmp2_idx], and every op row is separated as in C02_logicsim_loop_source_is_model OR writes one of the two scratch locations (a gate
+    without output line: s_out = tmp_idx; all statements of every branch write c[o0] / c[t0] / c[t1] only).  Then memory (outside the two
+    scratch locations) AND call sequence of the translated m == 8 loop with a callback, inside the pinned skeleton of c_prop (t0 / t1 read
+    from c_locs), are c_prop_cb / cb_lines of the compared model with sem8.  The second theorem discharges every hypothesis for every
+    build() result (all four option combinations, gates without output line included). *)
+From KV Require Proofs.LogicSimLoop8 Proofs.LogicSimLoopN Proofs.LogicSimSepBuildX Proofs.LogicSimLoopNExample.
+Module LS8 := KV.Proofs.LogicSimLoop8.
+Module LSN := KV.Proofs.LogicSimLoopN.
+Theorem C16_callback_loop8_source_is_model : forall so m M f cb,
+  LSN.ops_sepx_b so = true -> KV.Proofs.LogicSimGlue.ops_known so -> KV.Proofs.LogicSimGlue.locs_ok so (List.length m) -> LSN.cb_rel8 f cb ->
+  exists lt0 lt1, KV.Model.SimOpsCert.so_loc so (so_nlines so + 1) = Some lt0 /\ KV.Model.SimOpsCert.so_loc so (so_nlines so + 2) = Some lt1 /\ lt0 <> lt1 /\
+    (LS8.agree8 lt0 lt1 M m ->
+     let r := c_prop_src loop_prop_cpu loop_cprop2_cb loop_cprop4 loop_cprop8 8 (so_locs so) (so_nlines so)
+                (Z.of_nat (so_nlines so + 1)) (Z.of_nat (so_nlines so + 2)) (Some f) (map KV.Proofs.LogicSimDriversProofs.row_of (so_ops so)) M in
+     LS8.agree8 lt0 lt1 (fst r) (c_prop_cb Zero sem8 cb so m) /\ map fst (snd r) = cb_lines so).
+Proof. exact LSN.cprop8_cb_source_is_model. Qed.
+
+Theorem C16_callback_loop8_source_is_model_build : forall c caps cmin reuse strip so,
+  wf_netlist c -> comb_acyclic c -> (0 < cmin)%N -> KV.Proofs.EndToEnd.gates_known c -> (strip = true -> KV.Proofs.ReuseStrip.forks_ok c) ->
+  build c caps cmin reuse strip = Some so -> forall m, List.length m = N.to_nat (so_len so) -> forall M f cb, LSN.cb_rel8 f cb ->
+  exists lt0 lt1, KV.Model.SimOpsCert.so_loc so (so_nlines so + 1) = Some lt0 /\ KV.Model.SimOpsCert.so_loc so (so_nlines so + 2) = Some lt1 /\ lt0 <> lt1 /\
+    (LS8.agree8 lt0 lt1 M m ->
+     let r := c_prop_src loop_prop_cpu loop_cprop2_cb loop_cprop4 loop_cprop8 8 (so_locs so) (so_nlines so)
+                (Z.of_nat (so_nlines so + 1)) (Z.of_nat (so_nlines so + 2)) (Some f) (map KV.Proofs.LogicSimDriversProofs.row_of (so_ops so)) M in
+     LS8.agree8 lt0 lt1 (fst r) (c_prop_cb Zero sem8 cb so m) /\ map fst (snd r) = cb_lines so).
+Proof. exact KV.Proofs.LogicSimSepBuildX.build_cprop8_cb_source_is_model. Qed.
+
+(* m == 4 callback copy: two planes per location; on the 4-valued sub-domain (every value of the model memory is is4, kept by every step and
+   by the callback: LSN.cb_rel4) *)
+Theorem C16_callback_loop4_source_is_model : forall so m M f cb,
+  LSN.ops_sepx_b so = true -> KV.Proofs.LogicSimGlue.ops_known so -> KV.Proofs.LogicSimGlue.locs_ok so (List.length m) -> LSN.inv4 m -> LSN.cb_rel4 f cb ->
+  exists lt0 lt1, KV.Model.SimOpsCert.so_loc so (so_nlines so + 1) = Some lt0 /\ KV.Model.SimOpsCert.so_loc so (so_nlines so + 2) = Some lt1 /\ lt0 <> lt1 /\
+    (LSN.agree4 lt0 lt1 M m ->
+     let r := c_prop_src loop_prop_cpu loop_cprop2_cb loop_cprop4 loop_cprop8 4 (so_locs so) (so_nlines so)
+                (Z.of_nat (so_nlines so + 1)) (Z.of_nat (so_nlines so + 2)) (Some f) (map KV.Proofs.LogicSimDriversProofs.row_of (so_ops so)) M in
+     LSN.agree4 lt0 lt1 (fst r) (c_prop_cb Zero sem8 cb so m) /\ map fst (snd r) = cb_lines so /\ LSN.inv4 (c_prop_cb Zero sem8 cb so m)).
+Proof. exact LSN.cprop4_cb_source_is_model. Qed.
+
+(* the hypotheses are satisfiable on a circuit WITH a gate without output line (exD: old separation check false, extended one true), the
+   callback changes the result, and at least five calls are made *)
+Theorem C16_callback_loop8_source_nonvacuous : exists so lt0 lt1,
+  build KV.Proofs.LogicSimLoopNExample.exD (repeat 1%N 11) 1%N true false = Some so /\ LS8.ops_sep_b so = false /\ LSN.ops_sepx_b so = true /\
+  (exists o, In o (so_ops so) /\ s_out o = so_nlines so + 1) /\
+  KV.Model.SimOpsCert.so_loc so (so_nlines so + 1) = Some lt0 /\ KV.Model.SimOpsCert.so_loc so (so_nlines so + 2) = Some lt1 /\
+  (let r := c_prop_src loop_prop_cpu loop_cprop2_cb loop_cprop4 loop_cprop8 8 (so_locs so) (so_nlines so)
+              (Z.of_nat (so_nlines so + 1)) (Z.of_nat (so_nlines so + 2)) (Some KV.Proofs.LogicSimLoopNExample.ex_f)
+              (map KV.Proofs.LogicSimDriversProofs.row_of (so_ops so)) (map LS8.emb8 KV.Proofs.LogicSimLoopNExample.exM8d) in
+   LS8.agree8 lt0 lt1 (fst r) (c_prop_cb Zero sem8 KV.Proofs.LogicSimLoopNExample.ex_cb so KV.Proofs.LogicSimLoopNExample.exM8d) /\
+   map fst (snd r) = cb_lines so) /\
+  (5 <= List.length (cb_lines so)) /\
+  c_prop_cb Zero sem8 KV.Proofs.LogicSimLoopNExample.ex_cb so KV.Proofs.LogicSimLoopNExample.exM8d
+    <> c_prop Zero sem8 so KV.Proofs.LogicSimLoopNExample.exM8d.
+Proof. exact KV.Proofs.LogicSimLoopNExample.cb8_nonvacuous. Qed.
